@@ -1,6 +1,7 @@
 import Rare.Base.Proto
 import Rare.Model.C15
 import Rare.Model.C15Tail
+import Rare.Model.C15Trace
 /-!
 Driver of C15: `follow <notify|poll> <reopen> <tail> <history>` – the model's `expectedDelivered`;
 `tailb <cfg/history/lens>` – the batches of `TailFilesToChan` (`Rare.C15.Tail.tailToChan` on that stream).
@@ -118,6 +119,18 @@ def pCycle (cfg : PCfg) (s : PSt UInt8) : Option (PSt UInt8) :=
         | none => some { s with f := none, hist := s.pushOld, rd := .ended }
         | some _ => none
 
+/-- `L`: the `Stat` that follows the poller's last sleep when an append landed in that sleep: the size
+    differs from `readBytes`, so the re-open route is taken (`statDiff`, `reopen`: for the same, grown file
+    `openStep` resumes at the offset – `merges`). -/
+def pLateStat (cfg : PCfg) (s : PSt UInt8) : PSt UInt8 :=
+  if cfg.reopen && s.rd != .ended then
+    match s.fs.path with
+    | some j =>
+      let sz := (s.fs.content j).length
+      if sz = s.readBytes then s else openStep { s with rd := .opening sz } sz
+    | none => s
+  else s
+
 def pSettle (cfg : PCfg) : Nat → PSt UInt8 → PSt UInt8
   | 0, s => s
   | fuel + 1, s =>
@@ -129,12 +142,14 @@ def pSettle (cfg : PCfg) : Nat → PSt UInt8 → PSt UInt8
 
 inductive Op
   | append (b : Bytes) | pause | drain | removeDrained | remove | create | hold (b : Bytes) | release | skip
+  | lateAppend (b : Bytes)   -- `L`: release the consumer, then an append timed into the poller's last sleep
   deriving Repr
 
 def parseOp (st : String) : Option Op :=
   match st.toList with
   | 'a' :: r => (Hex.dec (String.ofList r)).map .append
   | 'H' :: r => (Hex.dec (String.ofList r)).map .hold
+  | 'L' :: r => (Hex.dec (String.ofList r)).map .lateAppend
   | 'p' :: _ => some .pause
   | 'B' :: _ => some .skip
   | 'A' :: _ => some .skip
@@ -166,6 +181,7 @@ def runNotify (cfg : NCfg) (prefD kf : Bool) (s0 : NSt UInt8) (startHeld : Bool)
         let s1 := settle false (nAppend sim.st b)
         { st := if s1.rd == .ended then s1 else { s1 with rd := .reading }, held := true }
     | .release => { st := settle false sim.st, held := false }
+    | .lateAppend b => { st := settle false (nAppend (settle false sim.st) b), held := false }
     | .pause | .drain | .skip => { sim with st := settle sim.held sim.st })
     { st := settle startHeld s0, held := startHeld }
   settle false fin.st
@@ -182,6 +198,7 @@ def runPoll (cfg : PCfg) (s0 : PSt UInt8) (startHeld : Bool) (ops : List Op) : P
       if sim.held || b.isEmpty || sim.st.fs.path.isNone then { sim with st := settle sim.held (pAppend sim.st b) }
       else { st := settle false (pAppend sim.st b), held := true }
     | .release => { st := settle false sim.st, held := false }
+    | .lateAppend b => { st := settle false (pLateStat cfg (pAppend (settle false sim.st) b)), held := false }
     | .pause | .drain | .skip => { sim with st := settle sim.held sim.st })
     { st := settle startHeld s0, held := startHeld }
   settle false fin.st
@@ -268,8 +285,152 @@ def tailb (blob : String) : String :=
     | _ => "bad-args cfg"
   | _ => "bad-args blob"
 
+
+/-! ### trace inclusion: `ttrace <blob>` / `tmut<k> <blob>` (see harness/corr/c15trace.go)
+
+blob = cfg/steps/trace.  cfg = via.mode.reopen.tail.batch.buffer.flushms.consumer.cdelay.attempts.files;
+steps (joined by `_`) = `<f>i<hex>` | `<f>n` (initial state of file `f`), `<f>a<hex>`, `<f>d`, `<f>c`, `p<ms>`, `w`;
+trace = `g.kind.src.a.b` joined by `_` (the event log of the real run, the harness being the consumer).
+Per file the history is executed on the follow LTS (delivered stream, did the stream end); the logged short
+flushes of that file are its timer oracle; `Rare.C15.Tail.tailToChan`/`live` give the follower's batches,
+`Rare.C15.Trace.flushLog` the reason of every flush; then the log must be accepted by `Rare.C15.Trace.machine`. -/
+
+open Rare.TraceOrder in
+def parseEv (s : String) : Option TraceOrder.Ev :=
+  match s.splitOn "." with
+  | [g, k, src, a, b] => do
+    let g ← g.toNat?
+    let a ← a.toNat?
+    let b ← b.toNat?
+    if src = "x" then pure ⟨g, k, noSrc, a, b, []⟩
+    else do
+      let i ← src.toNat?
+      pure ⟨g, k, i, a, b, []⟩
+  | _ => none
+
+def showEv (e : TraceOrder.Ev) : String :=
+  s!"{e.g}.{e.kind}.{if e.src = TraceOrder.noSrc then "x" else toString e.src}.{e.a}.{e.b}"
+
+/-- the follow LTS on one file's history: the delivered stream and whether the follow reader ended by itself -/
+def followOutcome (mode : String) (reopen tail : Bool) (attempts : Nat) (c0 : Option Bytes) (ops : List Op) :
+    Option (Bytes × Bool) :=
+  if mode == "notify" then
+    let run := fun (prefD kf : Bool) =>
+      runNotify { capW := 1, capD := 1, reopen := reopen } prefD kf (ninit c0 tail) false ops
+    let a := run true true
+    let others := [run false true, run true false, run false false]
+    if others.all fun o => o.delivered == a.delivered && (o.rd == .ended) == (a.rd == .ended) then
+      some (a.delivered, a.rd == .ended)
+    else none
+  else if mode == "poll" then
+    let s := runPoll { attempts := attempts, reopen := reopen } (pinit c0 tail) false ops
+    some (s.delivered, s.rd == .ended)
+  else none
+
+/-- the steps of file `f`: initial content (`none` = absent) and its operations, in order -/
+def fileSteps (steps : List String) (f : Nat) : Option (Option Bytes × List Op) :=
+  let mine := steps.filterMap fun st =>
+    match st.toList with
+    | c :: r => if c.isDigit && c.toNat - 48 == f then some (String.ofList r) else none
+    | [] => none
+  match mine with
+  | first :: rest =>
+    let c0? : Option (Option Bytes) :=
+      match first.toList with
+      | 'i' :: r => (Hex.dec (String.ofList r)).map some
+      | ['n'] => some none
+      | _ => none
+    match c0?, rest.mapM parseTailOp with
+    | some c0, some ops => some (c0, ops)
+    | _, _ => none
+  | [] => none
+
+def joinLines (ls : List Bytes) : Bytes := (ls.map fun l => l ++ [nl]).flatten
+
+structure TraceCase where
+  cfg : Rare.C15.Trace.Cfg
+  evs : List TraceOrder.Ev
+  fls : List (List (Bool × Nat × Nat))
+
+/-- builds the model side of a trace case; `Except` carries the answer when the case ends early -/
+def traceSetup (blob : String) : Except String TraceCase :=
+  match blob.splitOn "/" with
+  | [cfgS, histS, traceS] =>
+    match cfgS.splitOn "." with
+    | [via, mode, reopenS, tailS, batchS, bufferS, _, _, _, attemptsS, filesS] =>
+      match batchS.toNat?, bufferS.toNat?, attemptsS.toNat?, filesS.toNat?,
+            (if traceS == "." then some [] else (traceS.splitOn "_").mapM parseEv) with
+      | some batch, some buffer, some attempts, some files, some evs =>
+        let reopen := reopenS == "1"
+        let tail := tailS == "1"
+        let steps := histS.splitOn "_"
+        match evs.find? fun e => !Rare.C15.Trace.kinds.contains e.kind with
+        | some e => .error s!"rejected unknown event {showEv e}"
+        | none =>
+        let perFile : Option (List (Rare.C15.Multi.Follower × List Rare.C15.Trace.FlushEv × List (Bool × Nat × Nat))) :=
+          (List.range files).mapM fun f =>
+            match fileSteps steps f with
+            | none => none
+            | some (c0, ops) =>
+              let fl := Rare.C15.Trace.loggedFlushes evs f
+              if c0.isNone && !reopen then some (Rare.C15.Multi.failedFollower s!"f{f}", [], fl) else
+              match followOutcome mode reopen tail attempts c0 ops with
+              | none => none
+              | some (d, ended) =>
+                let ends := via == "V" || ended
+                let timer := Rare.C15.Trace.timerOf batch fl
+                let run : Rare.C15.Multi.FileRun := ⟨s!"f{f}", timer, d, [], ends⟩
+                let nLines := if ends then (Rare.C04.splitLines d).length else Rare.C15.Tail.completeLines d
+                some (run.follower 131072 batch,
+                      Rare.C15.Trace.flushLog batch ((List.range nLines).map timer) ends, fl)
+        match perFile with
+        | none => .error "schedule-dependent-or-bad-history"
+        | some pf =>
+          let fs := pf.map (·.1)
+          let logs := pf.map (·.2.1)
+          -- the model's own two views of the loop must agree (flushLog vs tailToChan/live)
+          if !(pf.all fun x => x.1.batches.map (fun b => (b.start, b.lines.length)) == x.2.1.map fun e => (e.start, e.n)) then
+            .error "model-inconsistent flushLog vs tailToChan"
+          else
+            let ends := fs.all (·.ends)
+            .ok { cfg := { fs := fs, flushes := logs, B := buffer, batch := batch, single := via == "V", ends := ends },
+                  evs := evs, fls := pf.map (·.2.2) }
+      | _, _, _, _, _ => .error "bad-args"
+    | _ => .error "bad-args cfg"
+  | _ => .error "bad-args blob"
+
+def ttrace (blob : String) (damaged : Bool) : String :=
+  match traceSetup blob with
+  | .error a => if damaged && a.startsWith "rejected" then "rejected" else a
+  | .ok tc =>
+    let cfg := tc.cfg
+    let bad := (List.range cfg.fs.length).find? fun i =>
+      !Rare.C15.Trace.flushesAgree cfg.batch (cfg.flushes.getD i []) (tc.fls.getD i [])
+    match bad with
+    | some i =>
+      if damaged then "rejected" else
+      let m := (cfg.flushes.getD i []).map fun e => s!"{repr e.reason}:{e.start}:{e.n}"
+      let l := (tc.fls.getD i []).map fun x => s!"{if x.1 then "fe" else "fl"}:{x.2.1}:{x.2.2}"
+      s!"rejected flushes src={i} model={m} log={l}"
+    | none =>
+    let tr := tc.evs.toArray
+    match TraceOrder.verdict (Rare.C15.Trace.machine cfg) (Rare.C15.Trace.lin tc.evs) (Rare.C15.Trace.initSt cfg) tr with
+    | .accepted ps _ =>
+      if damaged then "accepted-damaged-log" else
+      let s := ps.lts
+      let order := ",".intercalate (s.recvd.map fun x => s!"{x.1}:{x.2.start}:{x.2.lines.length}")
+      let ds := (List.range cfg.fs.length).map fun i =>
+        s!"d{i}={Hex.enc (joinLines ((Rare.C15.Multi.ofSource s.recvd i).flatMap (·.lines)))}"
+      s!"ok closed={if s.closed then 1 else 0} errs={ps.errs} order={if order.isEmpty then "." else order} {" ".intercalate ds}"
+    | .rejected deepest stuck exhausted =>
+      if damaged then "rejected" else
+      let st := " ".intercalate (stuck.map fun p => s!"{p}:{showEv (TraceOrder.evAt tr p)}")
+      s!"rejected after={deepest}/{tr.size} exhaustive={exhausted} frontier={st}"
+
 def handle : List String → String
   | ["tailb", blob] => tailb blob
+  | ["ttrace", blob] => ttrace blob false
+  | ["tmut", blob] => ttrace blob true
   | ["follow", mode, reopenS, tailS, hist] =>
     let reopen := reopenS == "1"
     let tail := tailS == "1"
